@@ -929,9 +929,13 @@ def vio(step, cls, op, exp, obs, h):
 def src_state(h, states, qkind):
     dm = h["dm"]
     n = len(h["model"].rows)
-    # measure only (peeks at private attributes; degrades gracefully if they disappear)
-    built = bool(getattr(dm, "_column_indexer", None))
-    dirty = bool(getattr(dm, "_need_refresh_rows", None))
+    # measure only (peeks at private attributes; degrades gracefully if they disappear - DataModel.__getattr__ turns a missing
+    # attribute into a column lookup, i.e. a KeyError, so a plain getattr default is not enough)
+    try:
+        built = bool(dm.__dict__.get("_column_indexer"))
+        dirty = bool(dm.__dict__.get("_need_refresh_rows"))
+    except Exception:  # noqa
+        built = dirty = False
     states.add(h64(f"{min(n, 5)}|{h['model'].is_range()}|{built}|{dirty}|{h['origin']}"))
 
 
